@@ -324,11 +324,21 @@ impl<'r, 'c, 's, W: Write> Serializer for DatumSerializer<'r, 'c, 's, W> {
 			SchemaNode::String | SchemaNode::Bytes | SchemaNode::Enum(_) => {
 				self.serialize_str(variant)
 			}
-			SchemaNode::Union(union) => {
-				self.serialize_union_unnamed(union, UnionVariantLookupKey::UnitVariant, |ser| {
-					ser.serialize_unit_variant(name, variant_index, variant)
-				})
-			}
+			SchemaNode::Union(union) => match union.per_type_lookup.named(variant) {
+				Some((discriminant, SchemaNode::Null)) => {
+					// The variant is named after the null branch: that's the branch it designates
+					self.state
+						.writer
+						.write_varint(discriminant)
+						.map_err(SerError::io)?;
+					Ok(())
+				}
+				_ => {
+					self.serialize_union_unnamed(union, UnionVariantLookupKey::UnitVariant, |ser| {
+						ser.serialize_unit_variant(name, variant_index, variant)
+					})
+				}
+			},
 			_ => Err(SerError::custom(format_args!(
 				"Could not serialize unit variant to {:?}",
 				self.schema_node
